@@ -95,7 +95,8 @@ def sign_members(country_code, fmt):
 
 
 class ScenarioGen:
-    def __init__(self, rng, i=0, fmt="xml", hostile=True, max_lanelets=4, max_obstacles=5, ctx=None, defaults=False):
+    def __init__(self, rng, i=0, fmt="xml", hostile=True, max_lanelets=4, max_obstacles=5, ctx=None, defaults=False,
+                 three_d=False):
         from vf.gen.objects import Gen
         self.r, self.i, self.fmt, self.hostile, self.ctx = rng, i, fmt, hostile, ctx
         self.G = Gen(rng)
@@ -103,6 +104,7 @@ class ScenarioGen:
         self.max_lanelets, self.max_obstacles = max_lanelets, max_obstacles
         self.defaults = defaults and fmt == "pb"   # constructor-default objects (only the protobuf format admits them)
         self.k = 0
+        self.three_d = three_d   # some lanelets carry z coordinates (<z> is an optional child of <point> / a Point field)
 
     # ------------------------------------------------------------------ helpers
     def feat(self, name):
@@ -301,6 +303,14 @@ class ScenarioGen:
                         kw["adjacent_right_same_direction"] = self.cyc([True, False])
                 kw["user_one_way"] = set(r.sample(users, r.randint(0, 2)))
                 kw["user_bidirectional"] = set(r.sample(users, r.randint(0, 2))) | ({self.cyc(users)} if r.random() < .5 else set())
+            if self.three_d and j % 2 == 0:
+                # a ramp through the reference height: negative, exactly zero and positive z on the same bound
+                zs = [[-1.0, 0.0, 0.5, 0.0, 2.25][k % 5] if j % 4 == 0 else 3.5 + 0.125 * k for k in range(m)]
+                left = np.array([[p[0], p[1], z] for p, z in zip(left, zs)])
+                right = np.array([[p[0], p[1], z] for p, z in zip(right, zs)])
+                self.feat("lanelet.3d")
+                if 0.0 in zs:
+                    self.feat("lanelet.3d.zero-height-vertex")
             out.append(Lanelet(left, (left + right) / 2, right, lid, **kw))
         return out
 
